@@ -3,11 +3,11 @@ TODO = 'check not built yet in this round (planned, see DESIGN.md section 4); no
 CHECKS = {
  'C08': dict(engine='z-grammar', ref='DESIGN.md 3.2, 4/C08',
    technique='SMT (z3) regular-language equivalence and table queries over the real generated automata',
-   text='Decision by z3 for all sentences (unbounded length) of every rule of every shipped grammar file: L(generated DFA) = L(right-hand side read independently from the text); one propositional query per grammar over all (state, token) pairs for domain/next state/push chain = "terminal arcs + FIRST of nonterminal arcs" with FIRST the solver\'s solution of the begins-with equations; LL(1)-ness decided by the solver must coincide with generate_grammar accepting/raising, also on a seeded family of synthetic grammars (bounded: family is sampled, 1-3 rules, <=6 operators). Bounded model checking level: unbounded in sentences, bounded in the set of grammars.',
+   text='Decision by z3 for all sentences (unbounded length) of every rule of every shipped grammar file: L(generated DFA) = L(right-hand side read independently from the text); one propositional query per grammar over all (state, token) pairs for domain/next state/push chain = "terminal arcs + FIRST of nonterminal arcs" with FIRST the solver\'s solution of the begins-with equations; LL(1)-ness decided by the solver must coincide with generate_grammar accepting/raising, also on two complete systematic families of two-rule grammars (20640 + 870 members: every term with <=3 operators incl. self and mutual reference) and a seeded random family (1-3 rules, <=6 operators); token keys of a second generation with another namespace must belong to that namespace. Bounded model checking level: unbounded in sentences, bounded in the set of grammars.',
    note='Trusted: the 90-line EBNF reader vp/ebnf.py, state elimination in vp/zgrammar.py, z3 5.1 regex/Bool solver. Four in-memory corruptions of the tables (broken twins) must be refuted on every run. Counterexamples are replayed without the solver by vp/replay_grammar.py.'),
  'C09': dict(engine='z-regex + x-crosshair', ref='DESIGN.md 3.1, 3.3, 4/C09',
    technique='SMT-backed symbolic execution (CrossHair/z3) of the real tokenizer + z3 regular-language lemmas over its live patterns',
-   text='Bounded model checking. (Z) z3 decides, for strings of unbounded length, lemmas over the sre parse trees of parso\'s compiled patterns: every prefix the tokenizer can assemble is tiled by the prefix lexer (minus the recorded known finding), progress, match-or-character availability, no line break inside NAME/NUMBER/OP, number dispatch. (X) CrossHair executes tokenize(), split_prefix(), _split_illegal_unicode_name(), _close_fstring_if_necessary() on symbolic inputs and decides G_tok (lossless, true positions, balanced INDENT/DEDENT, pure prefixes, lexical classes) over all paths: every 1-char text and every 2-char text with a listed first character over ALL of Unicode, 1-char full-Unicode holes in 24 skeletons (f-strings, continuations, BOM, brackets, indentation), prefixes of length <=2/3. Texts outside these families are not claimed.',
+   text='Bounded model checking. (Z) z3 decides, for strings of unbounded length, lemmas over the sre parse trees of parso\'s compiled patterns: every prefix the tokenizer can assemble is tiled by the prefix lexer (minus the recorded known finding), progress, match-or-character availability, no line break inside NAME/NUMBER/OP, number dispatch, no ambiguous repetition body in any token pattern (T9: necessary condition for exponential backtracking, with a timing replay). (X) CrossHair executes tokenize(), split_prefix(), _split_illegal_unicode_name(), _close_fstring_if_necessary() on symbolic inputs and decides G_tok (lossless, true positions, balanced INDENT/DEDENT, pure prefixes, lexical classes) over all paths: every 1-char text and every 2-char text with a listed first character over ALL of Unicode, 1-char full-Unicode holes in 24 skeletons (f-strings, continuations, BOM, brackets, indentation), prefixes of length <=2/3. Texts outside these families are not claimed.',
    note='Trusted: vp/rx.py translator (validated against re each run), vp/oracle.py reference walk/purity predicate (validated on the repository test corpus by tools/validate_oracles.py), CrossHair 0.0.110 with vp/chplugin.py. Reachability twin per condition; two broken twins per run must be refuted. Counterexamples replay on plain /venv python.'),
  'C16': dict(engine='x-crosshair', ref='DESIGN.md 4/C16',
    technique='SMT-backed symbolic execution (CrossHair/z3) of the real cache code against a stubbed environment; inductive step + bounded histories',
@@ -46,7 +46,7 @@ CHECKS.update({
    text='Bounded model checking: strict parsing raises iff the recovered tree has an error; equal trees otherwise; reported leaf = earliest error of the recovering parser - on symbolic spellings (token level, both parsers on the same stream) and complete label holes through Grammar.parse in both modes (incl. files without final newline and trailing comments, a grammar error followed by a tokenizer error).',
    note=_N),
  'C10': dict(engine='z-regex', ref='DESIGN.md 4/C10', technique='SMT (z3) regular-language equality between parso\'s live token patterns and the reference interpreters\' tokenize tables; z3 model of indentation columns',
-   text='PARTIAL claim (token classes, not streams): for each of 3.6-3.13 (3.14 judged by 3.13) language equalities/inclusions for Number, string starts and prefixes, one-line strings, Comment, Whitespace, operators vs the exact table, first-match=longest for operators, identifier characters in Name; indentation order vs CPython\'s column rule on whitespace words <=6 (form feed = known finding).',
+   text='PARTIAL claim (token classes; streams only on a small family): for each of 3.6-3.13 (3.14 judged by 3.13) language equalities/inclusions for Number, string starts and prefixes, one-line strings, Comment, Whitespace, operators vs the exact table, first-match=longest for operators, identifier characters in Name; indentation order vs CPython\'s column rule on whitespace words <=6 (form feed = known finding). Stream level: parso vs the pure-Python reference tokenizer (Lib/tokenize.py of 3.11) on 20 little valid programs with a hole ranging over the complete ASCII alphabet (realised, both tokenizers run natively): same significant tokens, texts and positions whenever the reference tokenizes without error.',
    note='Trusted: reference = regexes of Lib/tokenize.py and token.EXACT_TOKEN_TYPES read from each interpreter under /root/.pyenv/versions at run time; vp/rx.py translator.'),
  'C11': dict(engine='x-crosshair', ref='DESIGN.md 4/C11', technique=_X + ': every integer position on a tree family; synthetic tree with symbolic positions',
    text='Bounded model checking: get_leaf_for_position / get_name_of_position for EVERY integer (line, column) on 11 trees (error nodes, zero-width error leaves, touching tokens, BOM) and on a synthetic 3-level tree with symbolic positions/widths equal the linear specification; navigation laws for every leaf/node index of the family.',
